@@ -492,3 +492,7 @@ PROPS["C01"]["units"].append(M("hashiter_next_64bit", "quick", "HashIter::next (
 for pid_ in ("C14", "C01", "C12"):
     PROPS[pid_]["units"].append(K("h_cuckoo::ck_fingerprint_kernel", "quick", "cuckoo fingerprint in [1, 2^l-1], buckets in range, alternate bucket is an involution (discharges the contract engine M assumes for fingerprint()/hash())",
                                   "l in [2,64], n_buckets <= 2^20", mem_class_gb=6, timeout_s=2400))
+
+for pid_ in ("C06", "C12", "C01"):
+    PROPS[pid_]["units"].append(M("qf_translator_validation", "quick", "12 VERIF_SEED-driven concrete (member set, element) cases through the real QuotientFilter (state reached through the public API) and through the encoding started from enc(X): result, len and every slot must agree — validates the FixedBitSet / IntVector contracts AND the reference encoder",
+                                  "(2,2)", model="qf", op="validate", n=12, need_witness=["cases_agree"]))
